@@ -436,6 +436,54 @@ pub fn run(ctx: &mut Ctx) {
             ctx.fail("F43:struct-variant-as-complex-key", format!("{w1:?} emitted {t1:?}"), json!({"kind": "witness", "id": "F43"}));
         }
     }
+    // F83 (open): tuple variants and derived tuple structs whose elements are block nodes, and tuple structs below the
+    // top level (the tuple serializers do not take part in the inline-after-dash / depth bookkeeping)
+    {
+        #[derive(Serialize, Deserialize, PartialEq, Debug, Clone)]
+        struct S {
+            a: i32,
+            b: String,
+        }
+        #[derive(Serialize, Deserialize, PartialEq, Debug, Clone)]
+        struct P(i32, i32);
+        #[derive(Serialize, Deserialize, PartialEq, Debug, Clone)]
+        struct PV(Vec<i32>, Vec<i32>);
+        #[derive(Serialize, Deserialize, PartialEq, Debug, Clone)]
+        struct PS(S, S);
+        #[derive(Serialize, Deserialize, PartialEq, Debug, Clone)]
+        enum E {
+            TupS(S, i32),
+        }
+        fn rt<U: Serialize + serde::de::DeserializeOwned + PartialEq + std::fmt::Debug>(u: &U) -> Result<(), String> {
+            let text = serde_saphyr::to_string(u).map_err(|e| format!("serialization failed: {e}"))?;
+            match serde_saphyr::from_str::<U>(&text) {
+                Ok(b) if b == *u => Ok(()),
+                Ok(b) => Err(format!("emitted {text:?}, read back {b:?}")),
+                Err(e) => Err(format!("emitted {text:?}, reading fails: {}", e.to_string().lines().next().unwrap_or(""))),
+            }
+        }
+        let s = S { a: 1, b: "x".into() };
+        let checks: Vec<(&str, Result<(), String>)> = vec![
+            ("tuple variant whose first field is a struct", rt(&E::TupS(s.clone(), 2))),
+            ("tuple struct three mappings deep", rt(&BTreeMap::from([("x".to_string(), BTreeMap::from([("o".to_string(), BTreeMap::from([("a".to_string(), P(1, 2))]))]))]))),
+            ("tuple struct as a sequence element under a key", rt(&BTreeMap::from([("x".to_string(), vec![P(1, 2)])]))),
+            ("root tuple struct with sequence fields", rt(&PV(vec![1, 2], vec![]))),
+            ("root tuple struct with struct fields", rt(&PS(s.clone(), s.clone()))),
+        ];
+        for (what, r) in checks {
+            ctx.direct_evaluations += 1;
+            if let Err(m) = r {
+                ctx.fail("F83:tuple-serializers-layout", format!("{what}: {m}"), json!({"kind": "witness", "id": "F83", "what": what}));
+            }
+        }
+        // controls that hold: a root tuple struct of scalars, a tuple struct as a top-level field
+        for (what, r) in [("root tuple struct of scalars", rt(&P(1, 2))), ("tuple struct as a top-level field", rt(&BTreeMap::from([("a".to_string(), P(1, 2))])))] {
+            ctx.direct_evaluations += 1;
+            if let Err(m) = r {
+                ctx.fail("round-trip-differs", format!("{what}: {m}"), json!({"kind": "witness", "what": what}));
+            }
+        }
+    }
     // invalid options are refused, not emitted
     ctx.direct_evaluations += 1;
     let mut bad = Ov { step: 0, compact: false, braces: true, quote_all: false, yaml_12: false, block: true, tagged: false };
